@@ -334,7 +334,8 @@ def r1_r2_r3(ctx):
         if "ResponseBody::Pong" in bodies:
             lens = []
             for bi, t, e in g.switches():
-                if fmt_short(e).startswith("Bytes::len(") and e[0] == "call":
+                if e[0] == "call" and (fmt_short(e).startswith("Bytes::len(") or (re.search(r"(slice|Bytes)::len$", short(e[1])) and any(
+                        x[0] == "call" and re.search(r"<alloy_rlp::Bytes as alloy_rlp::Decodable>::decode$|Bytes as .*Decodable>::decode$", x[1]) for x in walk(e)))):
                     lens.append((bi, sorted(v for v, _ in t.vals), t.otherwise))
             okk = len(lens) == 1 and lens[0][1] == [4, 16] and blk not in b.reachable(lens[0][2])
             r2.check(okk, "PONG: only for an IP field of 4 or 16 bytes", "pong|ip-length", "Message::decode can accept a PONG whose IP field is neither 4 nor 16 bytes", loc=b.loc(line))
